@@ -79,6 +79,23 @@ def run(c, tier, sim_file_cfg, sim_store_cfg, want_trunc):
         res = vlib.harness(["replay", "logfile", bf, "--unit", unit, "--interval", interval], timeout=1200)
         vlib.replay_results(c, beh, res, keyfn(c.pid), "log file (unit=%dB, interval=%d)" % (unit, interval),
                             nontrivial=lambda b, u=unit, iv=interval: nontriv(b) and {"b": b, "u": u, "iv": iv})
+    # ---- sizes: records of 0.1 .. 3.3 MB (unit = 100 000 bytes, Sizes up to 33): larger than the file's growth step
+    # (1 MiB) and than one read of a file returns (2 MiB); behaviours in which such a record is followed by another append
+    def has_big(b):
+        ap = [s for s in b["steps"] if s["op"] in ("append", "batch")]
+        for i, s_ in enumerate(ap[:-1]):
+            szs = [s_.get("sz", 0)] if s_["op"] == "append" else [e.get("sz", 0) for e in s_.get("entries", [])]
+            if max(szs or [0]) >= 33:
+                return True
+        return False
+    bigb = [b for b in beh if has_big(b)][: (8 if quick else 120)]
+    if len(bigb) < 6:
+        raise ToolError("too few behaviours with a 33-unit record followed by another append: %d" % len(bigb))
+    bbf = vlib.write_ndjson(os.path.join(sc, "file_beh_big.ndjson"), bigb)
+    res = vlib.harness(["replay", "logfile", bbf, "--unit", 100000, "--interval", 128], timeout=2400)
+    vlib.replay_results(c, bigb, res, keyfn(c.pid), "log file (unit=100000B: records up to 3.3 MB, interval=128)",
+                        nontrivial=lambda b: nontriv(b) and {"b": b, "u": 100000, "iv": 128})
+    c.cov["behaviours_replayed_with_records_up_to_3.3MB"] = len(bigb)
     c.sample({"file_behaviour": beh[0]})
 
     # ---- GEN + REPLAY on the store (FileStore on the mini node, reopen = new process)
